@@ -577,7 +577,8 @@ def run_map(v, desc, scratch, keys):
                 ch.append(rng.choice(cand))
             chains.append(ch)
         if nestable:
-            chains += [["nest"], ["nest", "copy"], ["rename", "nest"], ["nest", "pickle"], ["nest", "rename"], ["copy", "nest", "join"]]
+            chains += [["nest"], ["nest", "copy"], ["rename", "nest"], ["nest", "pickle"], ["nest", "rename"], ["copy", "nest", "join"],
+                       ["join", "split"], ["or", "split", "rename"]]  # (simplified_pipeline refuses MapSpec pipelines: NotImplementedError by design)
         for chain in chains:
             map_chain(v, case, p0, env, inputs, ish, outs, chain, scal, rng, scratch, f"{i}-{'-'.join(chain)}", w0)
             keys.append(f"{mapgen.signature(case)}|map|{'+'.join(chain)}")
@@ -616,6 +617,11 @@ def map_chain(v, case, p0, env, inputs, ish, outs, chain, scal, rng, scratch, ta
                     names["zin"], names[f"zout{step}"] = "zin", f"zout{step}"
                 elif kind == "axis":
                     q.add_mapspec_axis(names[pname], axis="zz")
+                elif kind == "simplify":
+                    q = q.simplified_pipeline(names[case["funcs"][-1]["outs"][0]])
+                elif kind == "split":
+                    parts = q.split_disconnected()
+                    q = next(pp for pp in parts if names[case["funcs"][-1]["outs"][0]] in pp.output_to_func)
                 elif kind == "nest":
                     # the first two functions of the chain become one NestedPipeFunc (their MapSpecs are combined)
                     q.nest_funcs({names[case["funcs"][0]["outs"][0]], names[case["funcs"][1]["outs"][0]]})
@@ -629,6 +635,13 @@ def map_chain(v, case, p0, env, inputs, ish, outs, chain, scal, rng, scratch, ta
         v.bad(exc_sig(e, f"map-after:{label}"), f"map of the rewritten pipeline raised: {exc_msg(e)}", **w)
         return
     v.count(f"map_rewrite:{label}" if len(chain) == 1 else "map_rewrite:sequences")
+    if any(k in ("simplify", "split") for k in chain):
+        have = {n_ for f_ in q.functions for n_ in (f_.output_name if isinstance(f_.output_name, tuple) else (f_.output_name,))}
+        leaf = case["funcs"][-1]["outs"][0]
+        if names[leaf] not in have:
+            v.bad(f"map-value-after:{label}", f"the rewritten pipeline lost its leaf output {leaf}", **w)
+            return
+        outs = [o for o in outs if names[o] in have]
     if pname is None:
         for o in outs:
             v.count("map_values_compared")
